@@ -55,6 +55,9 @@ var uriClasses = append([]string{
 	// a plainly registered URI that contains a glob metacharacter (? * [ ] \), with that character replaced by what a
 	// glob would match there: registered exact URIs are strings, never patterns
 	"meta-subst-A", "meta-subst-B",
+	// what the client registered for LOGIN (its redirect URI, an instance of one of its login redirect globs): being
+	// allowed as an authorization redirect target does not make a URI a registered post-logout target
+	"login-redirect-A", "login-glob-hit-A",
 }, nearMisses...)
 
 var regKinds = []string{"a-exact", "a-glob", "a-globoff", "a-badglob-first", "a-badglob-last", "a-none", "a-odd", "a-wild", "a-meta", "a-meta-glob"}
@@ -77,6 +80,8 @@ func mk(id string, pl []string, globs bool, pg []string) *vclient.Client {
 	c.PostLogout = pl
 	c.Globs = globs
 	c.PostLogoutGlobs = pg
+	// login redirect globs, disjoint from everything registered for logout
+	c.RedirectGlobs = []string{"https://" + id + ".example/login/*", "https://*.login." + id + ".example/cb"}
 	return c
 }
 
@@ -112,6 +117,7 @@ func cloneClient(t *vclient.Client) *vclient.Client {
 	c.Redirects = append([]string(nil), t.Redirects...)
 	c.PostLogout = append([]string(nil), t.PostLogout...)
 	c.PostLogoutGlobs = append([]string(nil), t.PostLogoutGlobs...)
+	c.RedirectGlobs = append([]string(nil), t.RedirectGlobs...)
 	c.RespTypes = append(c.RespTypes[:0:0], t.RespTypes...)
 	c.Grants = append(c.Grants[:0:0], t.Grants...)
 	return &c
@@ -475,6 +481,11 @@ func genURIs(r *rand.Rand, cs *caseSpec) ([]string, string) {
 		return []string{regA(), pick(r, evilURIs...)}, ""
 	case "dup-evil-reg":
 		return []string{pick(r, evilURIs...), regA()}, ""
+	case "login-redirect-A":
+		return []string{a.Redirects[0]}, ""
+	case "login-glob-hit-A":
+		g := pick(r, a.RedirectGlobs...)
+		return []string{instantiate(r, g, true)}, g
 	case "meta-subst-A":
 		return metaSubst(r, a)
 	case "meta-subst-B":
